@@ -29,7 +29,7 @@ class Scn:
         return len(self.pools) - 1
 
     def text(self):
-        out = list(self.lines) + ["POOL %d %s %s" % (i, k, a) for i, (k, a) in enumerate(self.pools)] + self.es_lines
+        out = list(self.lines) + ["POOL %d %s" % (i, " ".join(pl)) for i, pl in enumerate(self.pools)] + self.es_lines
         for i, (k, n, p, ops) in enumerate(self.units):
             out.append("UNIT %d %s %s %d : %s" % (i, k, n, p, " ".join(ops)))
         for i, ops in enumerate(self.ext):
@@ -517,6 +517,31 @@ def gen_replace(rng, big=False):
     return s.text()
 
 
+def gen_replace_keep(rng, big=False):
+    """C06 / C01 (a pool that outlives a scheduler): the stream's pool is user-managed; a ULT replaces the main scheduler
+    by a new one over the SAME pool (the old scheduler is freed and must give up its share of the pool); afterwards
+    units of the pool block, the stream is joined from outside, and the units are resumed only then: the join must
+    return only when they are done (the pool is served by this one scheduler, so its blocked units count)"""
+    s = Scn(rng, 1, [(rng.choice(["fifo", "fifo_wait", "randws"]), "mpmc", "user")])
+    s.lines[1] = "WATCHDOG 10"
+    s.es(1, rng.choice(["basic", "default", "prio", "randws", "basic_wait"]), [0])
+    pre = [rng.choice(["W", "Y"]) for _ in range(rng.randint(0, 2))]
+    post = [rng.choice(["W", "Y"]) for _ in range(rng.randint(0, 2))]
+    r = s.unit("U", "N", 0, pre + ["z1:0"] + post)
+    s.main += ["C%d" % r, "F%d" % r]
+    units = []
+    for _ in range(rng.randint(1, 2)):
+        u = s.unit("U", "N", 0, ["W", "S", rng.choice(["W", "Y"])])
+        units.append(u)
+        s.main.append("C%d" % u)
+    s.main += ["B%d" % u for u in units]
+    s.ext.append(["B%d" % u for u in units] + ["j1"])
+    s.main += ["W"] * rng.randint(1, 4) + ["Y"] * rng.randint(0, 3)
+    rng.shuffle(units)
+    s.main += ["R%d" % u for u in units] + ["F%d" % u for u in units]
+    return s.text()
+
+
 def gen_f6(rng, big=False):
     """finding F6: a second migration request issued while the first one is being handled (between the handler's read
     of the target and its clearing of the request bit) is acknowledged with ABT_SUCCESS and never performed"""
@@ -525,8 +550,15 @@ def gen_f6(rng, big=False):
     s.es(1, "basic", [0])
     s.es(2, "basic", [1])
     u = s.unit("U", "N", 99, [])
-    s.units[u][3] = ["b%d!" % u, "M%d:0" % u, "Y", "Y", "Y", "Y"]
-    h = s.unit("U", "N", 1, ["w", "M%d:1" % u, "o"])
+    if rng.random() < 0.5:
+        s.units[u][3] = ["b%d!" % u, "M%d:0" % u, "Y", "Y", "Y", "Y"]
+        h = s.unit("U", "N", 1, ["w", "M%d:1" % u, "o"])
+    else:
+        # the second request is issued right after the callback has been let go: it lands while the handler finishes
+        # (around its clearing of the request bit) or just after; the unit sleeps before its next scheduling point, so
+        # an acknowledged request always has one left
+        s.units[u][3] = ["b%d!" % u, "M%d:0" % u, "Y", "Z", "Y", "Y", "Y"]
+        h = s.unit("U", "N", 1, ["w", "o", "M%d:1" % u])
     s.main += ["C%d" % u, "C%d" % h, "F%d" % h, "D%d" % u, "p%d" % u, "F%d" % u]
     return s.text()
 
